@@ -10,7 +10,13 @@ RULE = ("limit sweep (60% of cases): a .xz (1-30 Blocks, optional delta/x86 in t
         "and the decode must finish with output identical to the unlimited run; threaded decoder: peak <= "
         "memlimit_threading + allowance whenever the single-threaded decoder fits under it. Estimates (40%): measured "
         "peak of raw/easy/threaded encoders and raw/easy decoders vs lzma_*_memusage(). distinct = (file, decoder) / "
-        "(configuration, coder)")
+        "(configuration, coder). CLI part: the real xz under a heap-counting preload, "
+        "compressing (presets 0-9[e], custom chains, -T1/2/4/8/0/+1, block sizes, xz/lzma/raw, --no-adjust) and "
+        "decompressing/listing (dictionaries 4 KiB..1.5 GiB declared, -T1/-T4, --memlimit-decompress / "
+        "--memlimit-mt-decompress / -M) with limits around the measured unlimited peak: exit 0 => heap peak <= limit + "
+        "128 KiB and the output round-trips; exit 1 => memory-limit message, and the amount xz says is required, given "
+        "as the new limit, must succeed; a huge limit must succeed; the soft threading limit is kept whenever one "
+        "thread fits")
 
 
 def prepare(tier):
@@ -25,10 +31,20 @@ def run(ctx):
         "memory is counted as bytes requested through lzma_allocator (malloc overhead and thread stacks excluded)",
         "allowance = LZMA_MEMUSAGE_BASE (32 KiB) + 1 KiB per configured thread; the largest measured excess is reported "
         "in coverage.counters.max_excess_over_limit",
-        "the xz tool's --memlimit handling is exercised by the CLI part (thorough tier)",
+        "CLI part: heap bytes of the real xz (rel build, sandbox on) are malloc_usable_size sums kept by the "
+        "LD_PRELOAD monitor preload/libxzmem.so; allowance for xz's own small buffers and page rounding = 128 KiB",
     ]
     ctx.run_shards(exe, ["--mode", "c09"], 1600 if q else 16000)
+    cli_part(ctx, 320 if q else 6400)
     c = ctx.counters
+    ctx.require("cli_compress_within_limit", c.get("cli_compress_within_limit", 0), 15)
+    ctx.require("cli_compress_refused", c.get("cli_compress_refused", 0), 10)
+    ctx.require("cli_compress_adjusted_dict", c.get("cli_compress_adjusted_dict", 0), 3)
+    ctx.require("cli_compress_reduced_threads", c.get("cli_compress_reduced_threads", 0), 3)
+    ctx.require("cli_decompress_limit_reached", c.get("cli_decompress_limit_reached", 0), 10)
+    ctx.require("cli_decompress_raised_ok", c.get("cli_decompress_raised_ok", 0), 10)
+    ctx.require("cli_decompress_mt_soft_limit", c.get("cli_decompress_mt_soft_limit", 0), 5)
+    ctx.require("cli_list_limited", c.get("cli_list_limited", 0), 3)
     for d in ("stream", "stream_mt", "auto", "alone", "lzip", "file_info"):
         ctx.require("limited_" + d, c.get("limited_" + d, 0), 20)
     for d in ("stream", "stream_mt", "auto", "alone", "lzip"):
@@ -37,3 +53,350 @@ def run(ctx):
     ctx.require("mt_mixed_mode_files", c.get("mt_mixed_mode_files", 0), 20)
     for e in ("raw_encoder", "easy_encoder", "stream_encoder_mt", "raw_decoder", "easy_decoder"):
         ctx.require("estimate_" + e, c.get("estimate_" + e, 0), 30)
+
+
+ALLOW_CLI = 128 << 10
+
+
+def cli_part(ctx, ncases):
+    """xz with a user-specified limit either stays within it or fails with the memory-limit error."""
+    import os, random, re, struct, subprocess, zlib, concurrent.futures
+    xz = os.path.join(build.build_flavour("rel"), "xz")
+    so = build.build_shared("libxzmem.so", ["preload/libxzmem.c"])
+    d = os.path.join(ctx.scratch, "cli")
+    os.makedirs(d, exist_ok=True)
+    files = os.path.join(build.SRC, "tests", "files")
+
+    def runxz(tag, args, data, timeout=300):
+        out = os.path.join(d, tag + ".mem")
+        try:
+            os.unlink(out)
+        except OSError:
+            pass
+        env = {"PATH": os.environ.get("PATH", ""), "LC_ALL": "C", "LD_PRELOAD": so, "XZMEM_OUT": out}
+        try:
+            r = subprocess.run([xz] + args, input=data, stdout=subprocess.PIPE, stderr=subprocess.PIPE, env=env, timeout=timeout)
+        except subprocess.TimeoutExpired:
+            return None
+        peak = None
+        try:
+            m = re.search(r"peak=(\d+)", open(out).read())
+            if m:
+                peak = int(m.group(1))
+            os.unlink(out)
+        except OSError:
+            pass
+        return r.returncode, r.stdout, r.stderr.decode("latin-1"), peak
+
+    def plainxz(args, data):
+        env = {"PATH": os.environ.get("PATH", ""), "LC_ALL": "C"}
+        r = subprocess.run([xz] + args, input=data, stdout=subprocess.PIPE, stderr=subprocess.PIPE, env=env)
+        return r.returncode, r.stdout, r.stderr.decode("latin-1")
+
+    def gen_plain(rng, n):
+        k = rng.random()
+        if k < 0.3:
+            return rng.randbytes(n)
+        if k < 0.6:
+            return (b"The quick brown fox jumps over the lazy dog. " * (n // 45 + 1))[:n]
+        unit = rng.randbytes(rng.choice([3, 17, 1000, 40000]))
+        return (unit * (n // len(unit) + 1))[:n]
+
+    def pick_limit(rng, peak):
+        k = rng.random()
+        if k < 0.45:
+            return max(1, int(peak * rng.uniform(0.03, 1.4)))
+        if k < 0.6:
+            return max(1, peak + rng.choice([-70000, -4096, -1, 0, 1, 4096, 70000, 200000, 1 << 20]))
+        if k < 0.9:
+            return rng.choice([1, 4096, 100 << 10, 1 << 20, 5 << 20, 10 << 20, 30 << 20, 100 << 20, 300 << 20, 1 << 30])
+        return 1 << 60
+
+    def set_dict_byte(data, b):
+        # single-filter (LZMA2) Block Header written by xz -T1: [size][flags=0][0x21][1][dict][pad..][crc32]
+        if data[13] != 0 or data[14] != 0x21 or data[15] != 1:
+            return None
+        hs = (data[12] + 1) * 4
+        h = bytearray(data[12:12 + hs - 4])
+        h[4] = b
+        return data[:12] + bytes(h) + struct.pack("<I", zlib.crc32(bytes(h))) + data[12 + hs:]
+
+    def viol(key, detail, i):
+        return ("viol", key, detail + " [VERIF_SEED=%d cli case %d]" % (ctx.seed, i))
+
+    def compress_case(rng, i):
+        res = []
+        n = rng.choice([0, 1, 1000, 100000, 1000000, 3000000, rng.randrange(0, 2000000)])
+        plain = gen_plain(rng, n)
+        fmt = rng.choice(["xz"] * 8 + ["lzma", "raw"])
+        preset = "%d%s" % (rng.randrange(0, 10), "e" if rng.random() < 0.1 else "")
+        args = []
+        chain = []
+        if fmt == "raw" or rng.random() < 0.3:
+            dsz = rng.choice([4 << 10, 64 << 10, 1 << 20, 8 << 20, 32 << 20, 128 << 20, 256 << 20, rng.randrange(4 << 10, 64 << 20)])
+            if fmt == "lzma":
+                chain = ["--lzma1=preset=%s,dict=%d" % (preset, dsz)]
+            else:
+                pre = rng.choice([[], [], ["--x86"], ["--delta=dist=%d" % rng.randrange(1, 257)], ["--arm64"]])
+                chain = pre + ["--lzma2=preset=%s,dict=%d" % (preset, dsz)]
+        else:
+            args.append("-" + preset)
+        thr = rng.choice(["1", "1", "2", "4", "4", "8", "8", "0", "+1", "+4"])
+        args += ["-T" + thr, "--format=" + fmt] + chain
+        if rng.random() < 0.5:
+            args.append("--block-size=%d" % rng.choice([65536, 1 << 20, 8 << 20]))
+        base = ["-c"] + args
+        u = runxz("c%d" % i, base, plain)
+        if u is None or u[0] != 0 or u[3] is None:
+            return [("skip", "unlimited compress run unusable: %r" % (None if u is None else (u[0], u[2][:200])))]
+        peak_u = u[3]
+        lim = pick_limit(rng, peak_u)
+        opt = rng.choice(["--memlimit-compress=%d", "--memlimit-compress=%d", "-M%d", "--memlimit=%d"]) % lim
+        extra = [opt] + (["--no-adjust"] if rng.random() < 0.25 else []) + ["-vv"]
+        l = runxz("c%d" % i, ["-c"] + extra + args, plain)
+        desc = "xz -c %s (%d bytes; unlimited heap peak %d)" % (" ".join(extra + args), n, peak_u)
+        cls = "%s|T%s%s" % (fmt, "1" if thr == "1" else "mt", "|no-adjust" if "--no-adjust" in extra else "")
+        if l is None:
+            return [("skip", "timeout: " + desc)]
+        rc, out, err, peak = l
+        if rc in (0, 2):
+            if peak is None:
+                return [("skip", "no measurement: " + desc)]
+            if peak > lim + ALLOW_CLI:
+                res.append(viol("cli-compress-over-limit|" + cls, "%s: exit %d with heap peak %d > limit %d (+%d); stderr: %s" % (desc, rc, peak, lim, peak - lim, err[:300]), i))
+            dargs = ["-dc", "-T1", "--format=" + fmt] + (chain if fmt == "raw" else [])
+            if fmt == "raw" and "Adjusted" in err:
+                res.append(viol("cli-raw-dictionary-adjusted", desc + ": " + err[:300], i))
+            else:
+                drc, dout, derr = plainxz(dargs, out)
+                if drc != 0 or dout != plain:
+                    res.append(viol("cli-compress-limited-output-wrong|" + cls, "%s: output does not decode to the input (xz -d exit %d, %s)" % (desc, drc, derr[:200]), i))
+            res.append(("count", "cli_compress_within_limit"))
+            res.append(("excess", peak - lim))
+            if "Adjusted LZMA" in err:
+                res.append(("count", "cli_compress_adjusted_dict"))
+            if "Reduced the number of threads" in err:
+                res.append(("count", "cli_compress_reduced_threads"))
+            if "Switching to single-threaded" in err:
+                res.append(("count", "cli_compress_switched_single_threaded"))
+            if peak < peak_u - ALLOW_CLI:
+                res.append(("count", "cli_compress_limit_changed_allocation"))
+        elif rc == 1:
+            if "emory usage limit" not in err:
+                res.append(viol("cli-compress-fails-without-memlimit-error|" + cls, desc + ": exit 1, stderr: " + err[:300], i))
+            elif lim >= 1 << 60:
+                res.append(viol("cli-compress-refuses-huge-limit|" + cls, desc + ": " + err[:300], i))
+            elif peak is not None and peak > lim + ALLOW_CLI:
+                res.append(viol("cli-compress-over-limit-before-refusing|" + cls, "%s: heap peak %d > limit %d before the error" % (desc, peak, lim), i))
+            res.append(("count", "cli_compress_refused"))
+        else:
+            res.append(viol("cli-compress-abnormal-exit|" + cls, "%s: exit %d, stderr %s" % (desc, rc, err[:300]), i))
+        res.append(("hash", hash(("c", desc, lim))))
+        res.append(("sample", desc + " -> exit %d, peak %s" % (rc, peak)))
+        return res
+
+    def make_file(rng):
+        """-> (data, plain, description)"""
+        k = rng.random()
+        n = rng.choice([0, 10, 5000, 300000, rng.randrange(0, 600000)])
+        plain = gen_plain(rng, n)
+        if k < 0.08:
+            name = rng.choice(["good-1-v0.lz", "good-1-v1.lz", "good-2-v0-v1.lz", "good-1-v1-trailing-1.lz"])
+            data = open(os.path.join(files, name), "rb").read()
+            rc, out, err = plainxz(["-dc", "-T1"], data)
+            return (data, out, name) if rc == 0 else None
+        dsz = rng.choice([4 << 10, 64 << 10, 1 << 20, 8 << 20, 64 << 20, rng.randrange(4 << 10, 64 << 20)])
+        if k < 0.2:
+            a = ["-c", "--format=lzma", "--lzma1=preset=0,dict=%d" % dsz]
+            rc, out, err = plainxz(a, plain)
+            return (out, plain, " ".join(a)) if rc == 0 else None
+        data = b""
+        whole = b""
+        desc = []
+        for s in range(rng.choice([1, 1, 1, 2, 3])):
+            part = plain if s == 0 else gen_plain(rng, rng.choice([0, 100, 50000]))
+            dd = dsz if s == 0 else rng.choice([4 << 10, 1 << 20, 16 << 20])
+            pre = rng.choice([[], [], [], ["--x86"], ["--delta=dist=4"]])
+            a = ["-c", "-T%d" % rng.choice([1, 1, 4])] + pre + ["--lzma2=preset=0,dict=%d" % dd]
+            if rng.random() < 0.6:
+                a.append("--block-size=%d" % rng.choice([4096, 65536, 200000]))
+            rc, out, err = plainxz(a, part)
+            if rc != 0:
+                return None
+            if s == 0 and rng.random() < 0.25 and "-T1" in a and "--block-size" not in " ".join(a) and not pre:
+                b = rng.choice([30, 32, 34, 36, 37])   # 128 MiB .. 1.5 GiB declared, never used
+                p2 = set_dict_byte(out, b)
+                if p2 is not None:
+                    out = p2
+                    a.append("[dictionary byte patched to %d]" % b)
+            data += out + b"\0" * (4 * rng.choice([0, 0, 1, 3]))
+            whole += part
+            desc.append(" ".join(a))
+        return data, whole, " ; ".join(desc)
+
+    def decompress_case(rng, i):
+        res = []
+        f = make_file(rng)
+        if f is None:
+            return [("skip", "file generation failed")]
+        data, plain, fdesc = f
+        u = runxz("d%d" % i, ["-dc", "-T1"], data)
+        if u is None or u[0] != 0 or u[3] is None or u[1] != plain:
+            return [("viol", "cli-unlimited-decode-wrong", "xz -dc -T1 of {%s}: %r" % (fdesc, None if u is None else (u[0], u[2][:200])))] if (u is not None and u[0] == 0 and u[1] != plain) else [("skip", "unlimited decode unusable")]
+        peak1 = u[3]
+        mode = rng.choice(["T1", "T1", "T4", "T4", "T4soft", "T4both"])
+        lim = pick_limit(rng, peak1)
+        soft = None
+        if mode == "T1":
+            args = ["-T1", rng.choice(["--memlimit-decompress=%d", "-M%d"]) % lim]
+        elif mode == "T4":
+            args = ["-T4", "--memlimit-decompress=%d" % lim]
+        elif mode == "T4soft":
+            soft = lim
+            lim = None
+            args = ["-T4", "--memlimit-mt-decompress=%d" % soft]
+        else:
+            soft = max(1, int(lim * rng.uniform(0.2, 1.0)))
+            args = ["-T4", "--memlimit-decompress=%d" % lim, "--memlimit-mt-decompress=%d" % soft]
+        desc = "xz -dc %s of {%s} (%d bytes; -T1 unlimited heap peak %d)" % (" ".join(args), fdesc, len(data), peak1)
+        l = runxz("d%d" % i, ["-dc"] + args, data)
+        if l is None:
+            return [("skip", "timeout: " + desc)]
+        rc, out, err, peak = l
+        hard = lim
+        if rc == 0:
+            if out != plain:
+                res.append(viol("cli-decompress-limited-output-wrong|" + mode, desc, i))
+            if peak is not None and hard is not None and peak > hard + ALLOW_CLI:
+                res.append(viol("cli-decompress-over-limit|" + mode, "%s: exit 0 with heap peak %d > limit %d" % (desc, peak, hard), i))
+            if peak is not None and soft is not None and peak1 <= soft and peak > soft + ALLOW_CLI:
+                res.append(viol("cli-decompress-over-threading-limit|" + mode, "%s: heap peak %d > threading limit %d although one thread needs %d" % (desc, peak, soft, peak1), i))
+            if soft is not None and peak is not None:
+                res.append(("count", "cli_decompress_mt_soft_limit"))
+                if peak1 <= soft:
+                    res.append(("count", "cli_decompress_mt_soft_limit_binding"))
+            if hard is not None and peak is not None:
+                res.append(("count", "cli_decompress_within_limit"))
+                res.append(("excess", peak - hard))
+        elif rc == 1:
+            if hard is None:
+                res.append(viol("cli-decompress-soft-limit-fails|" + mode, desc + ": " + err[:300], i))
+            elif "Memory usage limit reached" not in err:
+                res.append(viol("cli-decompress-fails-without-memlimit-error|" + mode, desc + ": " + err[:300], i))
+            else:
+                res.append(("count", "cli_decompress_limit_reached"))
+                if hard >= 1 << 60:
+                    res.append(viol("cli-decompress-refuses-huge-limit|" + mode, desc, i))
+                if peak is not None and peak > hard + ALLOW_CLI:
+                    res.append(viol("cli-decompress-over-limit-before-refusing|" + mode, "%s: heap peak %d > limit %d" % (desc, peak, hard), i))
+                if plain[:len(out)] != out:
+                    res.append(viol("cli-decompress-refused-output-not-prefix|" + mode, desc, i))
+                # Later Blocks/Streams may need more than the one that stopped this run: follow xz's own figure until
+                # it is enough; it must grow strictly and end in success.
+                cur_err = err
+                last_need = 0
+                for _ in range(8):
+                    m = re.search(r"(\d[\d,]*) MiB of memory is required", cur_err)
+                    if not m:
+                        break
+                    need = int(m.group(1).replace(",", "")) << 20
+                    if need <= last_need:
+                        res.append(viol("cli-decompress-fails-with-reported-need|" + mode, "%s: xz asked for %d MiB again after being given it" % (desc, need >> 20), i))
+                        break
+                    last_need = need
+                    a2 = [a if not a.startswith(("--memlimit-decompress", "-M")) else "--memlimit-decompress=%d" % need for a in args]
+                    r2 = runxz("d%d" % i, ["-dc"] + a2, data)
+                    if r2 is None:
+                        break
+                    if r2[0] == 1 and "Memory usage limit reached" in r2[2]:
+                        cur_err = r2[2]
+                        continue
+                    if r2[0] != 0 or r2[1] != plain:
+                        res.append(viol("cli-decompress-fails-with-reported-need|" + mode, "%s: xz asked for %d MiB; with that limit: exit %d %s" % (desc, need >> 20, r2[0], r2[2][:200]), i))
+                    elif r2[3] is not None and r2[3] > need + ALLOW_CLI:
+                        res.append(viol("cli-decompress-over-limit|" + mode, "%s: raised to %d, heap peak %d" % (desc, need, r2[3]), i))
+                    else:
+                        res.append(("count", "cli_decompress_raised_ok"))
+                    break
+        else:
+            res.append(viol("cli-decompress-abnormal-exit|" + mode, "%s: exit %d %s" % (desc, rc, err[:300]), i))
+        res.append(("hash", hash(("d", desc))))
+        res.append(("sample", desc + " -> exit %d, peak %s" % (rc, peak)))
+        return res
+
+    def list_case(rng, i):
+        res = []
+        nb = rng.choice([3000, 8000, 20000])
+        plain = gen_plain(rng, nb)
+        rc, data, err = plainxz(["-c", "-T1", "-0", "--block-size=1"], plain)
+        if rc != 0:
+            return [("skip", "many-Block file: " + err[:200])]
+        if rng.random() < 0.5:
+            data = data + b"\0" * 8 + data
+        path = os.path.join(d, "l%d.xz" % i)
+        open(path, "wb").write(data)
+        try:
+            u = runxz("l%d" % i, ["--list", "--robot", path], b"")
+            if u is None or u[0] != 0 or u[3] is None:
+                return [("skip", "unlimited list unusable")]
+            lim = pick_limit(rng, u[3])
+            l = runxz("l%d" % i, ["--list", "--robot", "--memlimit-decompress=%d" % lim, path], b"")
+        finally:
+            os.unlink(path)
+        desc = "xz --list --memlimit-decompress=%d of %d one-byte Blocks x %d (unlimited heap peak %d)" % (lim, nb, len(data) // max(1, len(data) // 2 + 1) + 1, u[3])
+        if l is None:
+            return [("skip", "timeout")]
+        rc, out, err, peak = l
+        if rc == 0:
+            if out != u[1]:
+                res.append(viol("cli-list-limited-output-differs", desc, i))
+            if peak is not None and peak > lim + ALLOW_CLI:
+                res.append(viol("cli-list-over-limit", "%s: heap peak %d" % (desc, peak), i))
+            res.append(("count", "cli_list_within_limit"))
+        elif rc == 1:
+            if "Memory usage limit reached" not in err:
+                res.append(viol("cli-list-fails-without-memlimit-error", desc + ": " + err[:300], i))
+            elif peak is not None and peak > lim + ALLOW_CLI:
+                res.append(viol("cli-list-over-limit-before-refusing", "%s: heap peak %d" % (desc, peak), i))
+            res.append(("count", "cli_list_refused"))
+        else:
+            res.append(viol("cli-list-abnormal-exit", "%s: exit %d %s" % (desc, rc, err[:300]), i))
+        res.append(("count", "cli_list_limited"))
+        res.append(("hash", hash(("l", desc))))
+        return res
+
+    def one(i):
+        rng = random.Random((ctx.seed << 24) ^ (i * 2654435761) ^ 0xC09)
+        k = i % 20
+        try:
+            if k < 9:
+                return i, compress_case(rng, i)
+            if k < 19:
+                return i, decompress_case(rng, i)
+            return i, list_case(rng, i)
+        except Exception as e:   # harness trouble is never a verdict
+            return i, [("skip", "harness exception %r" % (e,))]
+
+    max_excess = None
+    with concurrent.futures.ThreadPoolExecutor(max_workers=12) as ex:
+        for i, items in ex.map(one, range(ncases)):
+            ctx.evaluations += 1
+            ctx.count("cli_cases")
+            for it in items:
+                if it[0] == "viol":
+                    ctx.violation(it[1], it[2], {"how": it[2]})
+                elif it[0] == "count":
+                    ctx.count(it[1])
+                elif it[0] == "excess":
+                    max_excess = it[1] if max_excess is None else max(max_excess, it[1])
+                elif it[0] == "hash":
+                    ctx.add_hash(it[1] & 0xFFFFFFFFFFFFFFFF)
+                elif it[0] == "sample":
+                    if len(ctx.samples) < 40 and i % 7 == 0:
+                        ctx.samples.append("cli: " + it[1][:300])
+                elif it[0] == "skip":
+                    ctx.count("cli_skipped")
+                    if len(ctx.notes) < 10:
+                        ctx.notes.append("cli case %d: %s" % (i, it[1][:300]))
+    if max_excess is not None:
+        ctx.counters["cli_max_peak_minus_limit"] = max_excess
